@@ -4,6 +4,14 @@ import json, sys
 props=[json.loads(l)['id'] for l in open('/verif/properties.jsonl')]
 TECH="bounded symbolic execution of the real go/ssa code; every branch, panic guard and assertion decided by SMT (z3, cross-checked with z3 5.1 and cvc5); counterexamples replayed natively"
 CHECKS={
+ "C04": dict(
+   text="Bounded model checking by symbolic execution, inductive in the history: the pre-state is ANY well-formed handler set (2 symbolic names, 0..N handlers each) built directly in the heap, then one real hSet.add / hNode.Remove / getHandlers step with symbolic names in any letter case is executed from go/ssa and compared with a sequence model (invariant preserved, contents change exactly as the model says, case-insensitive names), so arbitrary histories are covered by induction on the invariant. The real hSet.dispatch / Conn.dispatch then runs on such a set with handlers that remove themselves, remove a sibling or register new handlers from inside: each registered handler exactly once, no deadlock, lock free afterwards. Racing callers: a ghost-lock monitor checks on every path that each operation is ONE critical section of the set's lock and that every map access / node store happens inside it.",
+   ref="DESIGN.md §4 C04",
+   note="Bounds: 2 names x 0..2 (quick) / 0..3 (thorough) handlers. The step from 'each operation is one critical section' to the outcome of truly racing calls is the standard atomicity argument and is not solver-checked. 'monitor:' violations are reported on the executor's evidence (a single-threaded native run cannot observe which lock guards an access); the acquisition count is replayed natively with a counting-mutex overlay. Goroutines run to completion at wg.Wait (one legal schedule; handler bodies only touch disjoint counters)."),
+ "C15": dict(
+   text="Bounded model checking by symbolic execution of the real Line.Copy, hSet.dispatch and Conn.dispatch with 0..1 internal, 0..2 foreground and 0..2 background handlers that overwrite every mutable part of their line (symbolic contents; Tags nil / empty / 1 / 2 entries; 0..N arguments): each invocation's line equals the event on entry, the lines of all invocations and the original are pairwise heap-disjoint (checked on the executor's heap graph: same map, overlapping backing arrays, same *Line), every handler ran once, the original is unchanged.",
+   ref="DESIGN.md §4 C15",
+   note="Bounds: 0..2 arguments (quick), 0..3 and 15 (thorough). Schedule argument: handler goroutines are run to completion one after another; pairwise disjointness of everything mutable reachable through the arguments is exactly what makes the result independent of the interleaving, and it is what is asserted."),
  "C10": dict(
    text="Bounded model checking by symbolic execution with time as a solver variable: every time.Now reading is a fresh non-decreasing 64-bit variable, time.After records its argument. (1) One real rateLimit step from an ARBITRARY state (penalty, last-accounting instant, line length, both clock readings symbolic) is asserted equal to Hybrid's rule written in the harness - an inductive step, so it covers histories of any length. (2) The real write(): Flood symbolic; sleeps exactly once for exactly the line's charge, before the bytes reach the wire, iff the new penalty exceeds 10 s; never with Flood. (3) k consecutive lines from a fresh client through write() with arbitrary idle gaps: per-step rule and the window bound for every run i..j. 64-bit wrap-around semantics are kept (bit-vectors; cvc5 --solve-bv-as-int=sum decides the window queries, z3 the rest). Counterexamples are replayed natively against a temporary copy of the sources whose clock calls are redirected to the counterexample's readings.",
    ref="DESIGN.md §4 C10",
